@@ -14,7 +14,7 @@ func init() {
 		ID:    "C14",
 		Title: "I/O failures are reported, contained and recovered from",
 		Rules: []string{"C14.R1", "C14.R2", "C14.R3", "C13.R1", "C11.R2", "C02.R1", "C02.R2"},
-		Decides: "error discipline on every site and path: no error returned by the storage layer (Directory.*, WriterTo.WriteTo, segment plugin New/Load, DocsMatchingTerms, DeletionPolicy.Cleanup) or by a package-index function that wraps it is discarded, except at clean-up calls (Close/DecRef family); on the failure edge of the persist call in the persister every waiting channel gets the error (C02.R1), the asynchronous error callback fires unless the error is the closed sentinel, the failed round's callbacks are kept for the next successful round, and control returns to the loop head; likewise in the merger; the user-supplied AsyncError/EventCallback functions are invoked only behind a nil check of the very field; no partial file survives a failed write (C13.R1) and failed removals are retried (C11.R2). after a failed storage call a function with an error result does not return nil with the error having gone nowhere; the loops' progress marker (last epoch done) does not advance on the failing edge.",
+		Decides: "error discipline on every site and path: no error returned by the storage layer (Directory.*, WriterTo.WriteTo, segment plugin New/Load, DocsMatchingTerms, DeletionPolicy.Cleanup) or by a package-index function that wraps it is discarded, except at clean-up calls (Close/DecRef family); on the failure edge of the persist call in the persister every waiting channel gets the error (C02.R1), the asynchronous error callback fires unless the error is the closed sentinel, the failed round's callbacks are kept for the next successful round, and control returns to the loop head; likewise in the merger; the user-supplied AsyncError/EventCallback functions are invoked only behind a nil check of the very field; no partial file survives a failed write (C13.R1) and failed removals are retried (C11.R2). after a failed storage call a function with an error result does not return nil with the error having gone nowhere; the loops' progress marker (last epoch done) does not advance on the failing edge. handing an error to a callback and returning nil is not accepted in a function with an error result; moving on to the next item of a do-everything loop drops the failure.",
 		NotCovered: "that nothing hangs under faults (liveness); what readers answer during a fault (C04); behaviour of faults inside the segment library.",
 	})
 	registerRule(&RuleInfo{ID: "C14.R1", Title: "no storage error is dropped", Floor: 30, Run: ruleC14R1,
